@@ -16,18 +16,37 @@ by code at run time (persist / expiry policies) and variables DECLARED IN THE CO
 initial_value, value_type, persist - explicit or by default), set to falsy values (0, 0.0, -0.0, False, '') and others,
 over several boots in a row; observed after every boot: existence, value (as id of the value table), persist flag, and
 what the data file holds.  MV_DEVS: named deviations of the code as it is, as in part 1.
+Part 3 (DataManager.tla with StopSeq = TRUE): saves issued DURING the clean shutdown of a BOOTED machine.  The data
+managers are the ones MachineController.create_data_manager() returns for a real machine (machines/c15_mv; the last of
+them is installed as the data manager of the machine variables), their writer threads run under the same cooperative
+scheduler, and the machine is stopped by its own code: machine.stop() / the `quit` event, the real _run_loop() which
+leaves the loop and calls _do_stop(), the `shutdown` event with handlers at several priorities (registered by the
+driver; some also post an event whose handler does the work), shutdown().  The handlers execute their part of the
+schedule: save_all() on a data manager, a write of a persistent machine variable, and steps of the writer threads (a
+slow handler: the writers get to run between the stop request, the handlers and the final shutdown()).  Afterwards the
+writers run to their end and the files must hold what was handed over last (DurableAfterShutdown); a writer that ends
+while data is still being handed over is rejected by the model and explained by the deviation StopperSetEarly.
+Part 4 (ProcessExit): REAL `mpf game` processes on a scratch copy of machines/c15_mv (config exit.yaml, custom code
+custom_code/c15_exit.py; nothing patched, real threads, real time): the machine's code saves, requests the stop, saves
+in a handler of the shutdown event, the process ends the way mpf ends (sys.exit()).  What the data file holds after the
+process has ended is the observation; the steps of the writer thread are not observed (free traces).  The design
+waits for the writers before the process ends; NoJoinBeforeExit names the behaviour of a process that does not.
 """
 import builtins
+import contextlib
 import copy as _copy
 import datetime
 import decimal
 import errno
 import fractions
+import io
 import math
 import os
 import random
 import re
 import shutil
+import subprocess
+import sys
 import threading
 import types
 
@@ -38,10 +57,12 @@ LEVEL = 'model_checking'
 # BusyCheckThenAct: code as it is (known finding).  The other three were fixed in mpf and stay as regression deviations.
 DEVS = ['BusyFlagLeaksOnError', 'FinalFlushUsesClearedCopy', 'StaleYamlEmitterAfterError', 'BusyCheckThenAct']
 # deviations that only explain traces (schedules are not generated with them: a dead writer takes no more steps)
-DEVS_ALL = DEVS + ['WriterDiesOnSaveError', 'WriterDiesOnCopyError']
+DEVS_ALL = DEVS + ['WriterDiesOnSaveError', 'WriterDiesOnCopyError', 'StopperSetEarly']
+DEVS_EXIT = ['NoJoinBeforeExit']        # part 4 only: a free trace cannot tell the writer-internal deviations apart
 PROP_OF = {'BusyFlagLeaksOnError': 'ErrorDoesNotWedge', 'FinalFlushUsesClearedCopy': 'DurableAfterShutdown',
            'StaleYamlEmitterAfterError': 'ErrorDoesNotWedge', 'BusyCheckThenAct': 'SingleWriter',
-           'WriterDiesOnSaveError': 'ErrorDoesNotWedge', 'WriterDiesOnCopyError': 'ErrorDoesNotWedge'}
+           'WriterDiesOnSaveError': 'ErrorDoesNotWedge', 'WriterDiesOnCopyError': 'ErrorDoesNotWedge',
+           'StopperSetEarly': 'DurableAfterShutdown', 'NoJoinBeforeExit': 'DurableAfterShutdown'}
 WHAT = {
     'BusyFlagLeaksOnError':
         'FileManager.save (mpf/core/file_manager.py) sets FileManager.is_busy = True and does not reset it when the '
@@ -72,8 +93,23 @@ WHAT = {
         '`data = copy.deepcopy(self.data)` in DataManager._writing_thread (mpf/core/data_manager.py) is outside the '
         'try block that guards FileManager.save: data that cannot be deep-copied (or any exception raised by the copy) '
         'ends the writer thread, and every later save_all of that data manager is never written, not even at shutdown',
+    'StopperSetEarly':
+        'during the clean shutdown of a machine (mpf/core/machine.py: stop / _run_loop / _do_stop / shutdown) '
+        'machine.thread_stopper is set before the handlers of the `shutdown` event are done: a DataManager writer '
+        'thread (mpf/core/data_manager.py _writing_thread) that gets to run meanwhile leaves its loop, tests the dirty '
+        'flag once and ends; data handed to save_all() (or a persistent machine variable written) by a shutdown '
+        'handler after that moment is never written although the shutdown was clean',
+    'NoJoinBeforeExit':
+        'the process ends without waiting for the DataManager writer threads: they are started with '
+        '_thread.start_new_thread (mpf/core/data_manager.py DataManager.__init__), threads the interpreter does not wait '
+        'for at exit; MachineController.shutdown() (mpf/core/machine.py) only sets thread_stopper and nothing joins the '
+        'writers; `mpf game` returns from machine.run() and calls sys.exit() (mpf/commands/game.py Command.exit) about a '
+        'millisecond later. A writer that is in time.sleep(min_wait_secs) at that moment (rate limit: the previous write '
+        'was less than min_wait_secs ago; or the start-up delay) never gets to its final flush: data handed to save_all() '
+        'shortly before or during the clean shutdown is not on disk after the process has ended',
 }
 SAVEPTS = ('saveOpen', 'saveWrite', 'saveClose', 'replace')
+CS_POINTS = ('clearDirty', 'copy') + SAVEPTS
 FAULTPTS = ('copy',) + SAVEPTS
 STEP_TIMEOUT = 20
 
@@ -274,6 +310,38 @@ def _start_new_thread(fn, args=(), kwargs=None):
     return t.ident
 
 
+class CoopThread:
+    """threading.Thread as the data manager module may use it for its writer (instead of _thread.start_new_thread):
+    start() hands the thread to the scheduler; join() called by the main thread runs that writer, step by logged step,
+    to its end (nobody else could release it)."""
+
+    def __init__(self, group=None, target=None, name=None, args=(), kwargs=None, *, daemon=None):
+        del group
+        self._target, self._args, self._kwargs = target, tuple(args), dict(kwargs or {})
+        self.name = name or 'writer'
+        self.daemon = bool(daemon)
+        self.ident = None
+        self._ctl = None
+
+    def start(self):
+        self._ctl = _CUR.get('next')
+        if self._kwargs:
+            target, kwargs = self._target, self._kwargs
+            self.ident = _start_new_thread(lambda *a: target(*a, **kwargs), self._args)
+        else:
+            self.ident = _start_new_thread(self._target, self._args)
+
+    def is_alive(self):
+        return self._ctl is not None and self._ctl.point not in ('exited', 'hung')
+
+    def join(self, timeout=None):
+        del timeout
+        w = _CUR.get('world')
+        if self._ctl is None or _ctl() is not None or w is None:
+            return
+        w.joined(self._ctl)
+
+
 def _sleep(secs):
     c = _ctl()
     if c is None or secs < 0.5:      # the 0.2 s pause between two polls of the busy flag: the poll is the point
@@ -414,7 +482,8 @@ class Patched:
                       yimod.__dict__.get('open'), yimod.YamlInterface.cache, yimod._yaml)
         dmmod.time = types.SimpleNamespace(sleep=_sleep)
         dmmod._thread = types.SimpleNamespace(start_new_thread=_start_new_thread)
-        dmmod.threading = types.SimpleNamespace(Event=CoopEvent)
+        dmmod.threading = types.SimpleNamespace(Event=CoopEvent, Thread=CoopThread, current_thread=threading.current_thread,
+                                                main_thread=threading.main_thread)
         dmmod.copy = types.SimpleNamespace(copy=_copy.copy, deepcopy=_deepcopy)
         dmmod.FileManager = FMProxy()
         fmmod.os = OsProxy()
@@ -465,10 +534,28 @@ class World:
         self.aborted = False
         self.notes = []
         self._seen = {}
+        _CUR['world'] = self
         self.start()
+
+    def joined(self, c):
+        """The code under test joins writer c (main thread): run it to its end."""
+        self.notes.append('writer joined by the code under test')
+        self.on_join()
+        for _ in range(60):
+            if c.point in ('exited', 'hung') or self.aborted:
+                return
+            if c.point == 'waitBusy':
+                for o in self.alive():          # the holder of the busy flag has to get out of the way
+                    if o != c.idx and self.ctl[o].point in CS_POINTS:
+                        self.step(o)
+            self.step(c.idx)
+
+    def on_join(self):
+        pass
 
     def start(self):
         from mpf.core.data_manager import DataManager
+        self.phase = 'run'                     # where the main thread is in the stop sequence (driver's own book-keeping)
         self.machine = StubMachine(self.dir, self.nm)
         self.dm = {}
         self.ctl = {}
@@ -515,7 +602,7 @@ class World:
         return out
 
     def stopped(self):
-        return self.machine.thread_stopper.is_set()
+        return self.phase == 'stopped'
 
     # ---- main
     def save(self, i, k='ok', x=None):
@@ -534,15 +621,44 @@ class World:
             bad = table[n % len(table)]()
             plant(val, bad, n // len(table))
             line['_bad'] = '%s at %d' % (type(bad).__name__, (n // len(table)) % 5)
-        self.dm[i].save_all(val)
+        self.hand_over(i, v, val, line)
         line['disk'] = self.disk()
         self.ev.append(line)
+
+    def hand_over(self, i, v, val, line):
+        del v, line
+        self.dm[i].save_all(val)
 
     def shutdown(self):
         if self.stopped():
             return
         self.machine.thread_stopper.set()
+        self.phase = 'stopped'
         self.ev.append({'op': 'shutdown', 'disk': self.disk()})
+
+    def do(self, s):
+        """Execute one step of a schedule."""
+        if self.aborted:
+            return
+        op = s['op']
+        if op == 'save':
+            self.save(s['i'], s.get('k', 'ok'), s.get('x'))
+        elif op == 'shutdown':
+            self.shutdown()
+        elif op == 'crash':
+            self.crash()
+        elif op == 'unwedge':
+            self.unwedge()
+        elif op == 'w':
+            self.step(s['i'], s.get('fault', 'none'), s.get('x'))
+        elif op == 'run':            # hand-written schedules: step writer i until it is at a point
+            self.run_until(s['i'], s['until'])
+        elif op == 'settle':
+            self.settle()
+
+    def play(self, sched):
+        for s in sched:
+            self.do(s)
 
     def unwedge(self):
         from mpf.core.file_manager import FileManager
@@ -644,6 +760,179 @@ class World:
     def close(self):
         for c in self.ctl.values():
             c.kill()
+        _CUR.pop('world', None)
+
+
+class MachineWorld(World):
+    """Part 3: nm real data managers of a BOOTED machine (MachineController.create_data_manager); the last one is
+    installed as the data manager of the machine variables.  The machine is stopped by its own stop sequence."""
+
+    MV_NAME = 'c15_last'
+
+    def __init__(self, root, nm, salt, h):
+        self.h = h
+        self.segs = []
+        self.ncalled = 0
+        self.hooked = False
+        super().__init__(root, nm, salt)
+
+    def start(self):
+        from mpf.core.machine import MachineController
+        self.phase = 'run'
+        m = self.machine = self.h.machine
+        self.dm = {}
+        self.ctl = {}
+        for i in range(1, self.nm + 1):
+            m.config['mpf']['paths']['dm%d' % i] = self.path(i)        # an absolute path, as a machine config may give
+            c = Ctl(i)
+            _CUR['next'] = c
+            self.dm[i] = MachineController.create_data_manager(m, 'dm%d' % i)       # the real one, not the test double
+            self.ctl[i] = c
+            if type(self.dm[i]).__name__ != 'DataManager' or not c.wait_arrival():
+                raise RuntimeError('writer thread %d did not reach its first blocking point' % i)
+        m.variables.machine_var_data_manager = self.dm[self.nm]
+        m.variables.configure_machine_var(name=self.MV_NAME, persist=True)
+
+    def hand_over(self, i, v, val, line):
+        if i != self.nm or line['k'] != 'ok':
+            self.dm[i].save_all(val)
+            return
+        # a persistent machine variable is written: MachineVariables hands the dict of all persistent variables over
+        value = (1000 + v, 'v%d' % v, v + 0.5)[(v + self.salt) % 3]
+        self.machine.variables.set_machine_var(self.MV_NAME, value)
+        self.versions[i][v] = _copy.deepcopy(self.dm[i].data)
+        line['_via'] = 'set_machine_var(%s, %r)' % (self.MV_NAME, value)
+        if self.phase == 'run':
+            self.h.advance_time_and_run(0)
+
+    def crash(self):
+        self.notes.append('crash not executed on a booted machine')
+
+    def on_join(self):
+        # shutdown() joins its writers after it has set the stopper: that is the `stopped` line
+        if self.phase == 'handlers' and self.machine.thread_stopper.is_set() and not self.segs:
+            self._stopped_line()
+
+    def _stopped_line(self):
+        m = self.machine
+        self.phase = 'stopped'
+        self.ev.append({'op': 'stopped', 'disk': self.disk(), '_stopper': m.thread_stopper.is_set(),
+                        '_handlers_called': self.ncalled, '_not_called': len(self.segs)})
+
+    def shutdown(self):
+        self.dostop([])
+
+    def stop(self):
+        """The stop request: machine.stop(), directly or as the handler of the `quit` event."""
+        if self.phase != 'run':
+            return
+        m = self.machine
+        if self.salt % 2:
+            m.stop()
+            how = 'machine.stop()'
+        else:
+            m.events.post('quit')
+            m.events.process_event_queue()
+            how = 'event quit'
+        self.phase = 'stopreq'
+        self.ev.append({'op': 'stop', 'disk': self.disk(), '_how': how})
+
+    def _segment(self, **kwargs):
+        """Called by the event manager while the `shutdown` event is processed: the next part of the schedule."""
+        del kwargs
+        if not self.segs:
+            return
+        marked, ops = self.segs.pop(0)
+        self.ncalled += 1
+        try:
+            if marked:
+                self.ev.append({'op': 'h', 'disk': self.disk(), '_stopper': self.machine.thread_stopper.is_set()})
+            self.play(ops)
+        except Exception as ex:  # pylint: disable=broad-except
+            self.ev.append({'op': 'harness-crash', 'what': 'in a shutdown handler: ' + repr(ex)[:300]})
+            self.aborted = True
+
+    def _register(self, n):
+        """n handler invocations: handlers of `shutdown` at different (and equal) priorities, every third one posts an
+        event from its shutdown handler and does the work in the handler of that event."""
+        ev = self.machine.events
+        for j in range(n):
+            prio = 1000000 if j == 0 else (1, 50, 1, 1000, -5)[(j + self.salt) % 5]
+            if j and (j + self.salt) % 3 == 0:
+                name = 'c15_shutdown_chain_%d' % j
+
+                def chain(_name=name, **kwargs):
+                    del kwargs
+                    ev.post(_name)
+                ev.add_handler('shutdown', chain, priority=prio)
+                ev.add_handler(name, lambda **kwargs: self._segment(**kwargs))
+            else:
+                ev.add_handler('shutdown', lambda **kwargs: self._segment(**kwargs), priority=prio)
+
+    def dostop(self, segs):
+        """The clean shutdown by the machine's own code; segs = [(marked, ops)]: what the handlers do, in the order they
+        get called."""
+        if self.phase in ('handlers', 'stopped'):
+            return
+        m = self.machine
+        self.segs = list(segs)
+        self._register(len(self.segs))
+        real = m._do_stop
+
+        def entered():           # call-through: only logs that _do_stop() was entered
+            self.phase = 'handlers'
+            self.ev.append({'op': 'dostop', 'disk': self.disk(), '_stopper': m.thread_stopper.is_set()})
+            real()
+        m._do_stop = entered
+        try:
+            with contextlib.redirect_stdout(io.StringIO()):
+                if self.phase == 'stopreq':
+                    m._run_loop()          # the real main loop: ends because of the stop request, then _do_stop()
+                else:
+                    m._do_stop()           # as _crash_shutdown() and the test cases of mpf do
+        finally:
+            m._do_stop = lambda: None      # for the tearDown of the harness
+        if self.phase == 'handlers':
+            self._stopped_line()
+        elif self.phase != 'stopped':
+            raise RuntimeError('the stop sequence did not enter _do_stop()')
+
+    def do(self, s):
+        op = s['op']
+        if op == 'stop':
+            self.stop()
+        elif op in ('dostop', 'h', 'stopped'):
+            pass                    # structure of the stop sequence: see play()
+        else:
+            super().do(s)
+
+    def play(self, sched):
+        """Everything between `dostop` and `stopped` is executed from inside the handlers of the shutdown event."""
+        sched = list(sched)
+        for k, s in enumerate(sched):
+            if s['op'] == 'dostop' and self.phase in ('run', 'stopreq') and not self.aborted:
+                rest = sched[k + 1:]
+                end = next((n for n, x in enumerate(rest) if x['op'] == 'stopped'), len(rest))
+                segs = [(False, [])]
+                for x in rest[:end]:
+                    if x['op'] == 'h':
+                        segs.append((True, []))
+                    else:
+                        segs[-1][1].append(x)
+                self.dostop(segs)
+                super().play(rest[end:])
+                return
+            self.do(s)
+
+    def close(self):
+        super().close()
+        if self.phase != 'stopped':
+            self.machine._do_stop = lambda: None
+            try:
+                self.machine.shutdown()
+            except Exception:  # pylint: disable=broad-except
+                pass
+        harness.shutdown(self.h)
 
 
 def run_job(job):
@@ -651,29 +940,13 @@ def run_job(job):
     root = os.path.join(job['scratch'], 'dm_%d_%d' % (os.getpid(), job['id']))
     shutil.rmtree(root, ignore_errors=True)
     os.makedirs(root)
-    w = None
+    w = h = None
     try:
+        h = harness.boot(MV_MACHINE) if job.get('world') == 'machine' else None
         with Patched():
-            w = World(root, job['nm'], job['salt'])
+            w = MachineWorld(root, job['nm'], job['salt'], h) if h else World(root, job['nm'], job['salt'])
             try:
-                for s in job['sched']:
-                    if w.aborted:
-                        break
-                    op = s['op']
-                    if op == 'save':
-                        w.save(s['i'], s.get('k', 'ok'), s.get('x'))
-                    elif op == 'shutdown':
-                        w.shutdown()
-                    elif op == 'crash':
-                        w.crash()
-                    elif op == 'unwedge':
-                        w.unwedge()
-                    elif op == 'w':
-                        w.step(s['i'], s.get('fault', 'none'), s.get('x'))
-                    elif op == 'run':            # hand-written schedules: step writer i until it is at a point
-                        w.run_until(s['i'], s['until'])
-                    elif op == 'settle':
-                        w.settle()
+                w.play(job['sched'])
                 if job.get('settle') and not w.stopped():
                     w.settle()
                 w.finish()
@@ -683,6 +956,8 @@ def run_job(job):
     except Exception as ex:  # pylint: disable=broad-except
         import traceback
         ev = (w.ev if w else []) + [{'op': 'harness-crash', 'what': repr(ex)[:300]}]
+        if h is not None and w is None:
+            harness.shutdown(h)
         return {'ev': ev, '_job': job['id'], '_tb': traceback.format_exc()[-2000:]}
     finally:
         shutil.rmtree(root, ignore_errors=True)
@@ -741,15 +1016,63 @@ def handmade():
     return hs
 
 
+def handmade_machine():
+    """Part 3: saves while the machine shuts down.  Manager 1 is a data manager code saves to with save_all(), manager
+    2 is the one of the machine variables (a save is a write of a persistent machine variable).  STOP = stop request,
+    DS = _do_stop() begins, H = the next handler of the shutdown event begins, END = _do_stop() has returned."""
+    S = lambda i: {'op': 'save', 'i': i, 'k': 'ok', 'x': None}
+    W = lambda i, f='none', x=None: {'op': 'w', 'i': i, 'fault': f, 'x': x}
+    R = lambda i, p: {'op': 'run', 'i': i, 'until': p}
+    ST, STOP, DS, H, END = {'op': 'settle'}, {'op': 'stop'}, {'op': 'dostop'}, {'op': 'h'}, {'op': 'stopped'}
+    hs = []
+    for i, n in ((1, 'save_all'), (2, 'machine-var')):
+        o = 3 - i
+        # the plain stop sequence, nothing saved meanwhile
+        hs.append(('stop-plain-%s' % n, [W(1), W(2), S(i), DS, END]))
+        # a handler saves, the writers do not get to run before the handlers are done
+        hs.append(('stop-handler-saves-%s' % n, [W(1), W(2), S(i), ST, DS, H, S(i), END]))
+        # a slow handler (the writers run meanwhile), then the final data is saved: by the same handler / by a later one
+        hs.append(('stop-slow-handler-then-save-%s' % n, [W(1), W(2), S(i), ST, DS, H, W(i), W(o), W(i), W(o), S(i), END]))
+        hs.append(('stop-slow-handler-save-in-next-%s' % n, [W(1), W(2), S(i), ST, DS, H, W(i), W(i), W(o), H, S(i), END]))
+        hs.append(('stop-slow-handler-first-save-ever-%s' % n, [W(1), W(2), DS, H, W(i), W(i), H, S(i), END]))
+        # the writers get to run right after _do_stop() has begun, before the first handler
+        hs.append(('stop-writer-runs-first-%s' % n, [W(1), W(2), S(i), ST, DS, W(i), W(i), H, S(i), H, W(i), S(i), END]))
+        # the writer is in its start-up sleep / in the rate-limit sleep / busy writing when the handlers run
+        hs.append(('stop-in-init-sleep-%s' % n, [S(i), DS, H, W(i), S(i), H, W(i), W(i), END]))
+        hs.append(('stop-in-init-sleep-nothing-saved-before-%s' % n, [DS, H, W(i), W(o), H, S(i), END]))
+        hs.append(('stop-in-rate-sleep-%s' % n, [W(1), W(2), S(i), R(i, 'rateSleep'), DS, H, W(i), S(i), H, W(i), W(i), END]))
+        hs.append(('stop-in-rate-sleep-save-before-%s' % n, [W(1), W(2), S(i), R(i, 'rateSleep'), S(i), DS, H, W(i), W(i), S(i), END]))
+        for p in ('copy', 'saveWrite', 'replace'):
+            hs.append(('stop-during-%s-%s' % (p, n), [W(1), W(2), S(i), R(i, p), DS, H, S(i), W(i), W(i), H, W(i), W(i), W(i),
+                                                    S(i), END]))
+        # several handlers, each saves, the writers run in between
+        hs.append(('stop-handlers-save-in-turn-%s' % n, [W(1), W(2), S(1), S(2), ST, DS, H, S(i), W(i), W(i), H, S(o), W(o), W(i),
+                                                        W(i), H, S(i), S(o), H, W(1), W(2), END]))
+        hs.append(('stop-five-handlers-%s' % n, [W(1), W(2), S(i), ST, DS] + [H, W(i), W(o), S(i)] * 5 + [END]))
+        # saves racing with the stop request
+        hs.append(('stop-request-then-save-%s' % n, [W(1), W(2), S(i), ST, STOP, S(i), DS, END]))
+        hs.append(('stop-request-writer-runs-then-save-%s' % n, [W(1), W(2), S(i), ST, STOP, W(i), W(i), S(i), W(i), DS, H, W(i),
+                                                                S(i), END]))
+        hs.append(('stop-request-in-init-sleep-%s' % n, [STOP, S(i), W(i), DS, H, S(i), END]))
+        hs.append(('stop-request-save-stop-save-%s' % n, [W(1), W(2), S(i), STOP, S(o), W(o), W(i), DS, H, W(o), W(i), S(o),
+                                                         H, S(i), END]))
+        # a failed write in the final flush after handlers saved; a failed write while the handlers run
+        hs.append(('stop-handler-saves-flush-fails-%s' % n, [W(1), W(2), S(i), ST, DS, H, S(i), END, R(i, 'saveWrite'), W(i, 'io')]))
+        hs.append(('stop-write-fails-in-handler-%s' % n, [W(1), W(2), S(i), ST, DS, H, S(i), R(i, 'saveOpen'), W(i, 'exc'),
+                                                         H, S(i), END]))
+    return hs
+
+
 # ------------------------------------------------------------------------------------------------ TLC configs
-def dm_cfg(spec, nm, saves, errs, crashes, devs, props, bad=1):
+def dm_cfg(spec, nm, saves, errs, crashes, devs, props, bad=1, stopseq=False, handlers=0):
     return ('SPECIFICATION %s\nCONSTANTS\n  NM = %d\n  MaxSaves = %d\n  MaxErrors = %d\n  MaxBad = %d\n  MaxCrashes = %d\n'
-            '  Deviations = {%s}\n%sCHECK_DEADLOCK FALSE\n' % (
-                spec, nm, saves, errs, bad, crashes, ', '.join('"%s"' % d for d in devs), props))
+            '  MaxHandlers = %d\n  StopSeq = %s\n  Deviations = {%s}\n%sCHECK_DEADLOCK FALSE\n' % (
+                spec, nm, saves, errs, bad, crashes, handlers, 'TRUE' if stopseq else 'FALSE',
+                ', '.join('"%s"' % d for d in devs), props))
 
 
-SAFETY = ('INVARIANT TypeOK\nINVARIANT NeverTorn\nINVARIANT DurableAfterShutdown\nINVARIANT SingleWriter\n'
-          'INVARIANT BusyWhileWriting\n')
+SAFETY = ('INVARIANT TypeOK\nINVARIANT NeverTorn\nINVARIANT DurableAfterShutdown\nINVARIANT DurableAfterExit\n'
+          'INVARIANT SingleWriter\nINVARIANT BusyWhileWriting\n')
 LIVENESS = 'PROPERTY Written\nPROPERTY BusyFree\nPROPERTY WriterEnds\n'
 
 
@@ -765,7 +1088,20 @@ def design_checks(ctx, wd):
         f.write(dm_cfg('FairSpec', bl['NM'], bl['MaxSaves'], bl['MaxErrors'], bl['MaxCrashes'], [], LIVENESS))
     r = tlc.expect_ok(tlc.check(wd, 'DataManager', 'Live.cfg', timeout=3000), 'DataManager design check (liveness)')
     ctx.add_tlc('DataManager liveness', r, bl)
-    ctx.coverage['monitors'] += ['NeverTorn', 'DurableAfterShutdown', 'SingleWriter', 'BusyWhileWriting',
+    # the stop sequence of a machine step by step (stop request, _do_stop, handlers of the shutdown event that save,
+    # stopper set at the end), writers interleaved everywhere
+    bs = dict(NM=2, MaxSaves=3 if q else 4, MaxErrors=1, MaxBad=0, MaxCrashes=0, MaxHandlers=2, StopSeq=True)
+    with open(wd + '/MCStop.cfg', 'w') as f:
+        f.write(dm_cfg('Spec', bs['NM'], bs['MaxSaves'], bs['MaxErrors'], 0, [], SAFETY, bad=0, stopseq=True,
+                       handlers=bs['MaxHandlers']))
+    r = tlc.expect_ok(tlc.check(wd, 'DataManager', 'MCStop.cfg', timeout=3000), 'DataManager design check (stop sequence)')
+    ctx.add_tlc('DataManager safety, stop sequence', r, bs)
+    bsl = dict(NM=2, MaxSaves=2, MaxErrors=0, MaxBad=0, MaxCrashes=0, MaxHandlers=1, StopSeq=True)
+    with open(wd + '/LiveStop.cfg', 'w') as f:
+        f.write(dm_cfg('FairSpec', 2, 2, 0, 0, [], LIVENESS, bad=0, stopseq=True, handlers=1))
+    r = tlc.expect_ok(tlc.check(wd, 'DataManager', 'LiveStop.cfg', timeout=3000), 'DataManager design check (stop sequence, liveness)')
+    ctx.add_tlc('DataManager liveness, stop sequence', r, bsl)
+    ctx.coverage['monitors'] += ['NeverTorn', 'DurableAfterShutdown', 'DurableAfterExit', 'SingleWriter', 'BusyWhileWriting',
                                  'Written (ErrorDoesNotWedge)', 'BusyFree (ErrorDoesNotWedge)', 'WriterEnds']
     # the named deviations are the behaviours that break the properties: each one alone must be caught by TLC
     # (the last two numbers: budget of injected faults / of unwritable versions; the writer-dies deviations are
@@ -780,9 +1116,12 @@ def design_checks(ctx, wd):
               ('WriterDiesOnCopyError', 'FairSpec', 'PROPERTY Written\n', 'TemporalProperty', 1, 0)]
     if q:       # the injected-fault variants of the writer-dies deviations only in the thorough tier
         expect = [e for e in expect if not (e[0].startswith('WriterDies') and e[5] == 0)]
+    expect.append(('StopperSetEarly', 'Spec', 'INVARIANT DurableAfterShutdown\n', 'DurableAfterShutdown', 0, 0))
+    expect.append(('NoJoinBeforeExit', 'Spec', 'INVARIANT DurableAfterExit\n', 'DurableAfterExit', 0, 0))
     for d, spec, props, viol, errs, bad in expect:
         with open(wd + '/Dev.cfg', 'w') as f:
-            f.write(dm_cfg(spec, 2, 2, errs, 0, [d], props, bad=bad))
+            f.write(dm_cfg(spec, 2, 2, errs, 0, [d], props, bad=bad, stopseq=(d in ('StopperSetEarly', 'NoJoinBeforeExit')),
+                           handlers=1))
         r = tlc.check(wd, 'DataManager', 'Dev.cfg', timeout=3000)
         if not r.violated and re.search(r'Temporal propert\w+ .*violated', r.out):
             r.violated = 'TemporalProperty'
@@ -823,11 +1162,16 @@ def show(ev, upto=None):
             out.append('w%d:%s%s>%s%s%s' % (e['i'], e['pc'], '' if e['fault'] == 'none' else '!' + e['fault'], e['npc'],
                                             e['disk'], ('{%s}' % e['_exc']) if e.get('_exc') and e['npc'] == 'exited' else ''))
         elif e['op'] == 'save':
-            out.append('save%d(v%d%s)' % (e['i'], e['v'], '' if e.get('k', 'ok') == 'ok' else ':%s %s' % (e['k'], e.get('_bad'))))
+            out.append('save%d(v%d%s%s)' % (e['i'], e['v'], '' if e.get('k', 'ok') == 'ok' else ':%s %s' % (e['k'], e.get('_bad')),
+                                            ' ' + e['_via'] if e.get('_via') else ''))
         elif e['op'] == 'crash':
             out.append('CRASH loaded=%s' % e['loaded'])
         elif e['op'] == 'end':
             out.append('END exited=%s disk=%s' % (e['exited'], e['disk']))
+        elif e['op'] in ('stop', 'dostop', 'h', 'stopped'):
+            out.append({'stop': 'STOP-REQUEST(%s)' % e.get('_how'), 'dostop': '_DO_STOP{', 'h': 'HANDLER:',
+                        'stopped': '}STOPPED(handlers called: %s)' % e.get('_handlers_called')}[e['op']]
+                       + ('[stopper is set]' if e.get('_stopper') and e['op'] != 'stopped' else ''))
         else:
             out.append(e['op'])
     return ' '.join(out)
@@ -835,9 +1179,13 @@ def show(ev, upto=None):
 
 def run_datamanager(ctx):
     wd = tlc.prepare(ctx.scratch, 'DataManager', 'datamanager')
+    exit_runs = start_exit_runs(ctx)        # part 4: real processes, collected below
     design_checks(ctx, wd)
     q = ctx.quick
     trace_round(ctx, wd, 2, True, 260 if q else 3000, 140 if q else 1500, 70 if q else 110)
+    # part 3: the data managers of a booted machine, stopped by the machine's own stop sequence
+    trace_round(ctx, wd, 2, True, 90 if q else 1500, 40 if q else 600, 60 if q else 90, world='machine')
+    validate_exit_runs(ctx, wd, collect_exit_runs(exit_runs))
     if not q:
         with open(wd + '/MC3.cfg', 'w') as f:
             f.write(dm_cfg('Spec', 3, 3, 1, 0, [], SAFETY))
@@ -846,36 +1194,74 @@ def run_datamanager(ctx):
         trace_round(ctx, wd, 3, False, 700, 300, 120)
 
 
-def trace_round(ctx, wd, nm, with_handmade, n_design, n_dev, depth):
+def write_trace_cfgs(wd, nm):
+    consts = ('CONSTANTS\n  NM = %d\n  MaxSaves = 1000000\n  MaxErrors = 1000000\n  MaxBad = 1000000\n'
+              '  MaxCrashes = 1000000\n  MaxHandlers = 1000000\n  StopSeq = TRUE\n' % nm)
+    with open(wd + '/Trace.cfg', 'w') as f:
+        f.write('SPECIFICATION TSpec\n' + consts + '  Deviations = {}\nINVARIANT Reporter\nINVARIANT NeverTorn\n'
+                'INVARIANT DurableAfterShutdown\nINVARIANT DurableAfterExit\nINVARIANT SingleWriter\nINVARIANT AllExitedAtEnd\n'
+                'CHECK_DEADLOCK FALSE\n')
+    with open(wd + '/TraceDev.cfg', 'w') as f:
+        f.write('SPECIFICATION TSpec\n' + consts + '  Deviations = {%s}\nINVARIANT Reporter\nINVARIANT UsedReport\n'
+                'CHECK_DEADLOCK FALSE\n' % ', '.join('"%s"' % d for d in DEVS_ALL))
+    with open(wd + '/TraceDevExit.cfg', 'w') as f:
+        f.write('SPECIFICATION TSpec\n' + consts + '  Deviations = {%s}\nINVARIANT Reporter\nCHECK_DEADLOCK FALSE\n'
+                % ', '.join('"%s"' % d for d in DEVS_EXIT))
+
+
+def trace_round(ctx, wd, nm, with_handmade, n_design, n_dev, depth, world='stub'):
     """Generate schedules for nm managers, execute them on the real code, validate and classify the traces."""
-    rnd = random.Random(ctx.seed * 31 + nm)
+    mw = world == 'machine'
+    rnd = random.Random(ctx.seed * 31 + nm + (1000 if mw else 0))
     jobs = []
 
     def add(sched, settle, label):
         jobs.append({'id': len(jobs), 'sched': sched, 'settle': settle, 'nm': nm, 'salt': rnd.randrange(1000),
-                     'scratch': ctx.scratch, 'label': label})
-    if with_handmade:
+                     'scratch': ctx.scratch, 'label': label, 'world': world})
+    if with_handmade and mw:
+        for name, sched in handmade_machine():
+            for _ in range(2):              # both ways of requesting the stop, different priorities / chained handlers
+                add(sched, False, name)
+    elif with_handmade:
         for name, sched, settle in handmade():
             add(sched, settle, name)
     # schedules of the design and schedules that also walk through the recorded deviations (unwedge, two writers)
     for label, devs, num in (('design', [], n_design), ('deviating', DEVS, n_dev)):
         with open(wd + '/Gen.cfg', 'w') as f:
-            f.write(dm_cfg('Spec', nm, 5, 2, 1, devs, '', bad=2))
+            if mw:      # no process crash / unwritable data here (part 1 has them); up to 4 handlers of the shutdown event
+                f.write(dm_cfg('Spec', nm, 5, 1, 0, devs, '', bad=0, stopseq=True, handlers=4))
+            else:
+                f.write(dm_cfg('Spec', nm, 5, 2, 1, devs, '', bad=2))
         behs, _ = tlc.simulate(wd, 'DataManager', 'Gen.cfg', num=num, depth=depth, seed=ctx.seed)
         for b in behs:
             add([s['act'] for s in b if s['act']['op'] != 'init'], rnd.random() < 0.5, label)
     traces = harness.pmap(run_job, jobs, chunk=8)
-    consts = ('CONSTANTS\n  NM = %d\n  MaxSaves = 1000000\n  MaxErrors = 1000000\n  MaxBad = 1000000\n'
-              '  MaxCrashes = 1000000\n' % nm)
-    with open(wd + '/Trace.cfg', 'w') as f:
-        f.write('SPECIFICATION TSpec\n' + consts + '  Deviations = {}\nINVARIANT Reporter\nINVARIANT NeverTorn\n'
-                'INVARIANT DurableAfterShutdown\nINVARIANT SingleWriter\nINVARIANT AllExitedAtEnd\nCHECK_DEADLOCK FALSE\n')
-    with open(wd + '/TraceDev.cfg', 'w') as f:
-        f.write('SPECIFICATION TSpec\n' + consts + '  Deviations = {%s}\nINVARIANT Reporter\nINVARIANT UsedReport\n'
-                'CHECK_DEADLOCK FALSE\n' % ', '.join('"%s"' % d for d in DEVS_ALL))
+    write_trace_cfgs(wd, nm)
     v = tlc.validate_traces(wd, 'DataManagerTrace', 'Trace.cfg', traces, diagnose=False)
-    ctx.add_trace_verdict('DataManagerTrace (%d managers)' % nm, v, len(traces))
-    ctx.sample({'kind': 'datamanager-trace', 'schedule': jobs[0]['label'], 'trace': show(traces[0]['ev'])})
+    ctx.add_trace_verdict('DataManagerTrace (%d managers%s)' % (nm, ' of a booted machine, stop sequence' if mw else ''), v,
+                          len(traces))
+    k0 = 6 if mw else 0
+    ctx.sample({'kind': 'datamanager-trace', 'schedule': jobs[k0]['label'], 'trace': show(traces[k0]['ev'])})
+    if mw:
+        st = ctx.coverage.setdefault('stop_sequence', {})
+        ph = {'run': 0, 'stopreq': 0, 'handlers': 0}
+        wsteps = dict(ph)
+        for t in traces:
+            cur = 'run'
+            for e in t['ev']:
+                cur = {'stop': 'stopreq', 'dostop': 'handlers', 'stopped': 'stopped'}.get(e['op'], cur)
+                if cur in ph and e['op'] == 'save':
+                    ph[cur] += 1
+                if cur in wsteps and e['op'] == 'w':
+                    wsteps[cur] += 1
+        st['saves_by_phase'] = ph
+        st['writer_steps_by_phase'] = wsteps
+        st['machine_var_saves_in_handlers'] = sum(1 for t in traces for e in t['ev'] if e['op'] == 'save' and e.get('_via'))
+        st['handlers_called'] = sum(1 for t in traces for e in t['ev'] if e['op'] == 'h')
+        st['stop_requests'] = sorted({e['_how'] for t in traces for e in t['ev'] if e['op'] == 'stop'})
+        st['executions'] = len(traces)
+        if not (ph['handlers'] and ph['stopreq'] and wsteps['handlers'] and st['handlers_called']):
+            raise tlc.TLCError('vacuous: no saves / writer steps inside the stop sequence were executed: %s' % st)
     cov = ctx.coverage
     for key, vals in (('writer_points_seen', {e['pc'] for t in traces for e in t['ev'] if e['op'] == 'w'}),
                       ('crash_points_seen', {p for t in traces for e in t['ev'] if e['op'] == 'crash' for p in e['_at'].values()}),
@@ -929,6 +1315,126 @@ def trace_round(ctx, wd, nm, with_handmade, n_design, n_dev, depth):
                               '; a data file was observed TORN (not a complete version that was ever saved)' if torn else '',
                               show(traces[i]['ev'], info.get('line'))[:1500]),
                           {'job': _pub(jobs[i]), 'trace': traces[i], 'info': info})
+
+
+# ================================================================================== part 4: real `mpf game` processes
+EXIT_SCENARIOS = {
+    'rate-handler': 'save v1; 0.3 s after v1 is on disk (the writer is in its rate-limit sleep) machine.stop(); a handler '
+                    'of the shutdown event saves v2; the process ends',
+    'init-handler': 'the data manager is created; 0.3 s later (the writer is in its start-up delay) machine.stop(); a '
+                    'handler of the shutdown event saves v1; the process ends',
+    'rate-before-stop': 'save v1; 0.3 s after v1 is on disk save v2 and machine.stop() at once (no handler saves); the '
+                        'process ends',
+    'mv-rate-handler': 'the machine\'s own machine_vars data manager (min_wait_secs 1, the default): a persistent machine '
+                       'variable is set (v1); 0.3 s after it is on disk machine.stop(); a handler of the shutdown event sets '
+                       'it again (v2); the process ends',
+}
+EXIT_MIN_WAIT = 2      # min_wait_secs of the data manager: wide enough for a loaded machine (the default is 1)
+
+
+def start_exit_runs(ctx, only=None):
+    """Start one real `mpf game` process per scenario (they run while the model is checked)."""
+    runs = []
+    for scen in EXIT_SCENARIOS:
+        if only and scen != only:
+            continue
+        d = os.path.join(ctx.scratch, 'exit_%s_%d' % (scen, len(os.listdir(ctx.scratch))))
+        shutil.copytree(os.path.join(harness.VERIF, 'machines', MV_MACHINE), d)
+        log = os.path.join(d, 'steps.ndjson')
+        env = dict(os.environ, PYTHONPATH=harness.REPO, C15_EXIT_SCENARIO=scen, C15_EXIT_LOG=log,
+                   C15_EXIT_MIN_WAIT=str(EXIT_MIN_WAIT))
+        out = open(os.path.join(d, 'out.txt'), 'w')
+        # -x virtual platform, -t no text ui, -b no BCP, -a / -A no config cache
+        p = subprocess.Popen([sys.executable, '-m', 'mpf', 'game', d, '-x', '-t', '-b', '-a', '-A', '-c', 'exit.yaml'],
+                             cwd=d, env=env, stdout=out, stderr=subprocess.STDOUT, stdin=subprocess.DEVNULL)
+        out.close()
+        runs.append((scen, d, log, p))
+    return runs
+
+
+def collect_exit_runs(runs):
+    """Wait for the processes; one free trace each: the logged steps, then what the data file holds now."""
+    import json
+    from mpf.core.file_manager import FileManager
+    from mpf.file_interfaces.yaml_interface import YamlInterface
+    traces = []
+    for scen, d, log, p in runs:
+        try:
+            rc = p.wait(timeout=240)
+        except subprocess.TimeoutExpired:
+            p.kill()
+            rc = 'timeout'
+        lines = [json.loads(x) for x in open(log)] if os.path.isfile(log) else []
+        out = open(os.path.join(d, 'out.txt'), errors='replace').read()
+        tail = out[-1500:]
+        ops = [e.get('op') for e in lines]
+        # a clean shutdown: requested by the machine's code, the normal branch of _run_loop, exit code 0
+        if (rc != 0 or ops[:1] != ['boot'] or 'Shutdown reason: C15' not in out or 'Traceback' in out
+                or [o for o in ops if o in ('stop', 'dostop', 'h')] != ['stop', 'dostop', 'h']):
+            raise tlc.TLCError('`mpf game` (scenario %s) did not run to a clean exit: rc=%s steps=%s\n%s' % (scen, rc, lines, tail))
+        if not os.path.abspath(lines[0]['_mpf']).startswith(os.path.abspath(harness.REPO) + '/'):
+            raise tlc.TLCError('`mpf game` imported mpf from %s' % lines[0]['_mpf'])
+        path = os.path.join(d, 'data', 'machine_vars.yaml' if scen.startswith('mv-') else 'c15_exit.yaml')
+        ver, got = 0, None
+        if os.path.isfile(path):
+            cache, YamlInterface.cache = YamlInterface.cache, False
+            try:
+                got = FileManager.load(path, halt_on_error=True)
+                ver = next((e['v'] for e in lines if e['op'] == 'save' and strict_eq(e['_val'], got)), -1)
+            except Exception:  # pylint: disable=broad-except
+                ver = -1
+            finally:
+                YamlInterface.cache = cache
+        # (the values go into a top-level key: JSON null inside an event cannot be read by the TLA+ Json module)
+        vals = {str(e['v']): e.pop('_val') for e in lines if e['op'] == 'save'}
+        ev = lines[1:] + [{'op': 'stopped'}, {'op': 'exit', 'disk': [ver, 0], '_file': repr(got)[:200], '_rc': rc}]
+        traces.append({'ev': ev, 'free': True, '_scenario': scen, '_vals': vals})
+        shutil.rmtree(d, ignore_errors=True)
+    return traces
+
+
+def exit_story(tr):
+    out = []
+    for e in tr['ev']:
+        out.append({'save': 'save_all(v%s)' % e.get('v'), 'stop': 'machine.stop()', 'dostop': '_do_stop() begins',
+                    'h': 'handler of the shutdown event:', 'stopped': '_do_stop() returns',
+                    'exit': 'the process has ended (exit code %s); the data file now holds %s' % (
+                        e.get('_rc'), ('version %s' % e['disk'][0]) if e.get('disk', [0])[0] > 0 else
+                        'nothing (absent)' if e.get('disk', [0])[0] == 0 else 'NO version that was saved: %s' % e.get('_file'))
+                    }.get(e['op'], str(e)))
+    return '; '.join(out)
+
+
+def validate_exit_runs(ctx, wd, traces, sig=None):
+    write_trace_cfgs(wd, 2)
+    v = tlc.validate_traces(wd, 'DataManagerTrace', 'Trace.cfg', traces, diagnose=False)
+    ctx.add_trace_verdict('DataManagerTrace (real `mpf game` processes, until the process has ended)', v, len(traces))
+    ctx.coverage.setdefault('stop_sequence', {})['process_exit_scenarios'] = {
+        t['_scenario']: exit_story(t) for t in traces}
+    rej = sorted(v.rejected)
+    if not rej:
+        return
+    sub = [traces[i] for i in rej]
+    v2 = tlc.validate_traces(wd, 'DataManagerTrace', 'TraceDevExit.cfg', sub, diagnose=False)
+    explained = [rej[k] for k in sorted(v2.accepted)]
+    if explained:
+        d = DEVS_EXIT[0]
+        ctx.violation(sig or 'C15:%s:%s' % (PROP_OF[d], d),
+                      '%s. Observed with real `mpf game` processes (machines/c15_mv, config exit.yaml, min_wait_secs=%s of the '
+                      'data manager the machine code creates; nothing patched) in %d of %d scenarios: %s' % (
+                          WHAT[d], EXIT_MIN_WAIT, len(explained), len(traces),
+                          ' || '.join('[%s: %s] %s' % (traces[i]['_scenario'], EXIT_SCENARIOS[traces[i]['_scenario']],
+                                                       exit_story(traces[i])) for i in explained)),
+                      {'exit_scenario': traces[explained[0]]['_scenario'], 'trace': traces[explained[0]], 'needs': [d]})
+    for i in rej:
+        if i in explained:
+            continue
+        info = v.rejected[i]
+        ctx.violation(sig or 'C15:trace:exit:%s' % traces[i]['_scenario'],
+                      'a real `mpf game` process (%s) is not a behaviour of the DataManager model, not even one of a '
+                      'process that ends without waiting for its writers (%s): %s' % (
+                          EXIT_SCENARIOS[traces[i]['_scenario']], info, exit_story(traces[i])),
+                      {'exit_scenario': traces[i]['_scenario'], 'trace': traces[i], 'info': info})
 
 
 # ============================================================================================ machine variables
@@ -1294,6 +1800,13 @@ def run(ctx):
         'write failures: exceptions (6 OSError classes, 11 other Exception classes) raised at the deep copy, the open '
         'of the temp file, its two write halves and os.replace, and values the YAML dumper cannot represent / '
         'copy.deepcopy cannot copy handed to save_all; BaseExceptions that are not Exceptions are not injected',
+        'stop sequence (part 3): data is handed over before the stop request, between the stop request and _do_stop(), and '
+        'by handlers of the shutdown event (also through a persistent machine variable); saves made after shutdown() has '
+        'set the stopper (by device / platform stop code or by tasks that run inside shutdown()) are not modelled; the '
+        'handlers are registered by the driver (mpf\'s own shutdown handlers of the booted machine run as well)',
+        'process exit (part 4): three timed scenarios with real `mpf game` processes (min_wait_secs=%d): a process that '
+        'is stalled for more than about a second between the last save and its exit can hide a missing join; the '
+        'writer idle in _dirty.wait() at the last save is a real race and is not judged' % EXIT_MIN_WAIT,
         'two threads are never let into ruamel dump() at the same time (it can crash the interpreter); two writers '
         'inside FileManager.save are reported from the trace before that point',
         'machine variables: every name has a fixed persist/expire policy; variables created by code get it from '
@@ -1319,14 +1832,16 @@ def replay(ctx, data):
         for i, info in v.rejected.items():
             ctx.violation(data['sig'], 'replayed: %s' % info, d)
         return
+    if 'exit_scenario' in d:
+        trs = collect_exit_runs(start_exit_runs(ctx, only=d['exit_scenario']))
+        print('replay:', exit_story(trs[0]))
+        validate_exit_runs(ctx, tlc.prepare(ctx.scratch, 'DataManager', 'datamanager'), trs, sig=data['sig'])
+        return
     j = dict(d['job'], scratch=ctx.scratch)
     tr = run_job(j)
     print('replay trace:', show(tr['ev']))
     wd = tlc.prepare(ctx.scratch, 'DataManager', 'datamanager')
-    consts = 'CONSTANTS\n  NM = 2\n  MaxSaves = 1000000\n  MaxErrors = 1000000\n  MaxBad = 1000000\n  MaxCrashes = 1000000\n'
-    with open(wd + '/Trace.cfg', 'w') as f:
-        f.write('SPECIFICATION TSpec\n' + consts + '  Deviations = {}\nINVARIANT Reporter\nINVARIANT NeverTorn\n'
-                'INVARIANT DurableAfterShutdown\nINVARIANT SingleWriter\nINVARIANT AllExitedAtEnd\nCHECK_DEADLOCK FALSE\n')
+    write_trace_cfgs(wd, j.get('nm', 2))
     v = tlc.validate_traces(wd, 'DataManagerTrace', 'Trace.cfg', [tr])
     for i, info in v.rejected.items():
         ctx.violation(data['sig'], 'replayed: %s' % info, d)
